@@ -168,6 +168,22 @@ PathDevName(m, F) == IF StatPartial(m, F) THEN "stat-partial" ELSE IF CcThroughF
 (* once) or "sub" (level 1 is itself given to a sub-config option on the   *)
 (* command line: loaded like a nested level).                              *)
 (*                                                                         *)
+(* Round 4 -- the directory of a config file has three readings:           *)
+(*   dirs[k]   the directory of the path AS NAMED, as the kernel resolves   *)
+(*             the spelling (the directory that holds the file or the       *)
+(*             symbolic link) -- Ref: relative paths inside follow THIS one *)
+(*   tdirs[k]  the directory of the file's realpath (the link's target);    *)
+(*             = dirs[k] for a regular file                                 *)
+(*   xdirs[k]  the directory a TEXTUAL normalisation of the spelling gives  *)
+(*             (os.path.abspath, _util.py:304): differs from dirs[k] when   *)
+(*             the file is named  X/dl/../file  and dl is a symbolic link   *)
+(*             to a directory elsewhere                                     *)
+(*   place[k]  where a file with the value's relative name exists: "all"    *)
+(*             (every directory: decoys), "named" / "target" / "textual"    *)
+(*             (only next to the link / next to the target / only where     *)
+(*             the textual reading points), "three" (in all three, with     *)
+(*             different content).                                          *)
+(*                                                                         *)
 (* State: cwd, cpd (current_path_dir), frames (open change_to_path_dir     *)
 (* managers: <<saved cwd, saved cpd>>), ctl (control stack <<level,        *)
 (* phase>>), exc (an exception is propagating), log of observable events.  *)
@@ -180,6 +196,23 @@ CQuiescent(s) == s.ctl = << >>
 NLevels(p) == Len(p.dirs)
 Inside(ph) == ph \in {"load_exit", "item1", "item2", "apply_exit"}          \* phases between an Enter and its Exit
 LoadsTwice(p, k) == k >= 2 \/ p.entry = "sub"
+
+\* where a file with the relative name of the value of level k exists
+Holds(p, k, d) == CASE p.place[k] = "all"     -> TRUE
+                    [] p.place[k] = "named"   -> d = p.dirs[k]
+                    [] p.place[k] = "target"  -> d = p.tdirs[k]
+                    [] p.place[k] = "textual" -> d = p.xdirs[k]
+                    [] p.place[k] = "three"   -> d \in {p.dirs[k], p.tdirs[k], p.xdirs[k]}
+\* the reference to the file of level k (k >= 2) is spelled relative to the directory of the file of level k-1 as named;
+\* all directories are siblings, so a spelling that starts in another directory (../X/...) means the same from everywhere
+RefFoundFrom(p, k, c) == k = 1 \/ c = p.dirs[k - 1] \/ p.xdirs[k] # p.dirs[k - 1]
+\* Alg: _util.py:295-304  path_dir = os.path.dirname(path.absolute) -- the path AS NAMED, no realpath (a symbolic link to a
+\* file elsewhere does not move it) -- then os.path.abspath(path_dir): a TEXTUAL normalisation (named deviation
+\* DotDotTextual: "dl/.." is dropped although dl is a symbolic link to a directory elsewhere).
+\* CwdVariant = "realpath" is a sanity mutant of the model (the directory of the link's target is entered)
+AlgDir(p, k) == IF CwdVariant = "realpath" THEN p.tdirs[k] ELSE p.xdirs[k]
+DotDotTextual(p) == \E k \in 1..Len(p.dirs) : p.xdirs[k] # p.dirs[k]
+CwdDevName(p) == IF DotDotTextual(p) THEN "dotdot-textual" ELSE "none"
 
 \* _util.py:287-305  path_dir = dirname(path.absolute); token = current_path_dir.set(path_dir); saved = os.getcwd(); os.chdir(path_dir)
 CEnter(s, d) == [s EXCEPT !.frames = Append(s.frames, <<s.cwd, s.cpd>>), !.cpd = d, !.cwd = d, !.log = Append(s.log, <<"chdir", 0, d>>)]
@@ -194,20 +227,21 @@ CStep(p, s) ==
   ELSE IF s.exc /\ CwdVariant = "nofinally" THEN [s EXCEPT !.ctl = CPop(s)]                      \* (sanity mutant: no finally)
   ELSE CASE
      \* Path(value, mode=fr) -- _util.py:570-572 resolves the reference against os.getcwd()
-     ph = "ref" -> IF p.fail = <<"missingfile", k>> THEN [s EXCEPT !.exc = TRUE, !.log = Append(s.log, <<"ref", k, s.cwd>>)]
+     ph = "ref" -> IF p.fail = <<"missingfile", k>> \/ ~RefFoundFrom(p, k, s.cwd) THEN [s EXCEPT !.exc = TRUE, !.log = Append(s.log, <<"ref", k, s.cwd>>)]
                    ELSE [CSet(s, IF LoadsTwice(p, k) THEN "load_enter" ELSE "apply_enter") EXCEPT !.log = Append(s.log, <<"ref", k, s.cwd>>)]
      \* parse_value_or_config, _util.py:141-142: with cfg_path.relative_path_context(): load_value(...)
-  [] ph = "load_enter" -> [CSet(CEnter(s, p.dirs[k]), "load_exit") EXCEPT !.exc = (p.fail = <<"badyaml", k>>)]
+  [] ph = "load_enter" -> [CSet(CEnter(s, AlgDir(p, k)), "load_exit") EXCEPT !.exc = (p.fail = <<"badyaml", k>>)]
   [] ph = "load_exit"  -> CSet(CExit(s), IF s.exc THEN "dead" ELSE "apply_enter")
      \* _actions.py:330 / _typehints.py:581 / _core.py:620 / _core.py:1024: with change_to_path_dir(cfg_path): apply the content
-  [] ph = "apply_enter" -> [CSet(CEnter(s, p.dirs[k]), "item1") EXCEPT !.exc = (~LoadsTwice(p, k) /\ p.fail = <<"badyaml", k>>)]
+  [] ph = "apply_enter" -> [CSet(CEnter(s, AlgDir(p, k)), "item1") EXCEPT !.exc = (~LoadsTwice(p, k) /\ p.fail = <<"badyaml", k>>)]
   [] ph \in {"item1", "item2"} ->
        IF s.exc THEN CSet(s, "apply_exit")
        ELSE LET n == IF ph = "item1" THEN 1 ELSE 2
                 nx == IF n = 1 THEN "item2" ELSE "apply_exit" IN
             IF CItem(p, k, n) = "value"
             THEN \* a relative path value: Path.__init__ :570-572 joins it with os.getcwd()
-                 [CSet(s, nx) EXCEPT !.log = Append(s.log, <<"resolve", k, s.cwd>>), !.exc = (p.fail = <<"badpath", k>>)]
+                 \* and checks the flags "fr" there: PathError when no such file exists in that directory
+                 [CSet(s, nx) EXCEPT !.log = Append(s.log, <<"resolve", k, s.cwd>>), !.exc = (p.fail = <<"badpath", k>> \/ ~Holds(p, k, s.cwd))]
             ELSE IF k < NLevels(p) THEN [CSet(s, nx) EXCEPT !.ctl = Append(@, <<k + 1, "ref">>)]
             ELSE CSet(s, nx)
   [] ph = "apply_exit" -> [CExit(s) EXCEPT !.ctl = CPop(s)]
@@ -223,6 +257,11 @@ CRun(p) == CRunFrom(p, CStart(p))
 ResolvesInFileDir(p, log) ==
   \A j \in 1..Len(log) : /\ log[j][1] = "resolve" => log[j][3] = p.dirs[log[j][2]]
                          /\ log[j][1] = "ref" => log[j][3] = (IF log[j][2] = 1 THEN p.start ELSE p.dirs[log[j][2] - 1])
+\* the parse fails exactly when a failure was planted or a value names a file that does not exist NEXT TO THE FILE AS NAMED
+\* (a neighbour of the link is found; a same-named file next to the link's target only is not picked)
+RefRaises(p) == p.fail[1] # "none" \/ \E k \in 1..Len(p.dirs) : ~Holds(p, k, p.dirs[k])
+\* the values the Alg run resolved successfully: <<level, directory>>
+Resolved(p, log) == {<<log[j][2], log[j][3]>> : j \in {i \in 1..Len(log) : log[i][1] = "resolve" /\ Holds(p, log[i][2], log[i][3]) /\ p.fail # <<"badpath", log[i][2]>>}}
 \* when the call is over -- normally or by an exception -- the process is where it was
 CwdRestored(p, s) == CQuiescent(s) => (s.cwd = p.start /\ s.cpd = "none" /\ s.frames = << >>)
 \* the chdir calls alone (what a wrapped os.chdir sees)
